@@ -74,13 +74,19 @@ Definition judge_burst (c : tok) : Z :=
     (* the hypotheses *)
     if negb (distinctb (map (call_op calls) (seq 0 n))) then -1001 else
     if negb (all_below n (delivered_aloneb cd fuel e pm calls)) then -1002 else
+    (* per call: the op id Execute reads from the server model's reply, and the reply's length *)
+    let rinfo := map (fun j => match reply_frame cd fuel e pm calls j, server_reply cd fuel e pm calls j with
+                               | Some fr, Some r => Some (f_op fr, zlen r)
+                               | _, _ => None
+                               end) (seq 0 n) in
     if negb (forallb (fun p =>
                 match execute_frame (frame_of p) with
                 | Ok op =>
-                  existsb (fun j => match reply_frame cd fuel e pm calls j, server_reply cd fuel e pm calls j with
-                                    | Some fr, Some r => (f_op fr =? op) && ((proto =? 2) || (zlen r =? zlen p))
-                                    | _, _ => false
-                                    end) (seq 0 n)
+                  let lp := zlen p in
+                  existsb (fun x => match x with
+                                    | Some (o, l) => (o =? op) && ((proto =? 2) || (l =? lp))
+                                    | None => false
+                                    end) rinfo
                 | _ => false
                 end) replies) then -1003 else
     percall + 16384
